@@ -145,6 +145,19 @@ func newGenerator(seed int64, tier string) *generator {
 	q := append(append([]byte{}, dict[:400]...), payload(rng, 3000)...)
 	add("start-dict", writeRAC(q, 700, true, [][]byte{dict}))
 	add("end-dict", writeRAC(q, 700, false, [][]byte{dict}))
+	// several shared dictionaries whose lengths differ by 1, 2, 3, 4 and -9 bytes, each used by the chunk made
+	// from it: one Reader loads them one after the other (the dictionary loader re-uses its buffer when it fits)
+	var dicts [][]byte
+	var q5 []byte
+	for _, n := range []int{300, 301, 303, 306, 310, 301, 305} {
+		dk := make([]byte, n)
+		rng.Read(dk)
+		dicts = append(dicts, dk)
+		q5 = append(q5, dk[:280]...)
+		q5 = append(q5, payload(rng, 120)...)
+	}
+	add("start-dicts7", writeRAC(q5, 400, true, dicts))
+	add("end-dicts7", writeRAC(q5, 400, false, dicts))
 	if tier == "thorough" {
 		big := payload(rng, 66000*4)
 		add("end-66000x4", writeRAC(big, 4, false, nil))
@@ -272,9 +285,14 @@ func (g *generator) make(k int) (what string, data []byte, claimed int64) {
 	if k%8 == 7 {
 		return g.handBuilt(rng, k)
 	}
+	if k%8 == 3 && k/8 < len(g.bases) {
+		// every base file as it is: walked, sought into and read in full like the hostile ones
+		b := &g.bases[k/8]
+		return b.name + ": unchanged", append([]byte{}, b.data...), int64(len(b.data))
+	}
 	b := &g.bases[rng.Intn(len(g.bases))]
 	if len(b.data) > 1<<20 && rng.Intn(12) != 0 {
-		b = &g.bases[rng.Intn(6)] // the three-level 2 MB file only now and then
+		b = &g.bases[rng.Intn(8)] // the three-level 2 MB file only now and then
 	}
 	d := append([]byte{}, b.data...)
 	claimed = int64(len(d))
